@@ -122,7 +122,13 @@ func (t Table) DDL() []string {
 }
 
 func (t Table) Migrate(ctx context.Context, pg Conn) error {
-	for _, stmt := range t.DDL() {
+	// The first statement creates the table. The indexes have to wait
+	// until an already existing table has received its missing columns.
+	var createTable, createIndexes = t.DDL(), []string(nil)
+	if len(createTable) > 1 {
+		createTable, createIndexes = createTable[:1], createTable[1:]
+	}
+	for _, stmt := range createTable {
 		if _, err := pg.Exec(ctx, stmt); err != nil {
 			return fmt.Errorf("table %q stmt %q: %w", t.Name, stmt, err)
 		}
@@ -140,6 +146,11 @@ func (t Table) Migrate(ctx context.Context, pg Conn) error {
 		)
 		if _, err := pg.Exec(ctx, q); err != nil {
 			return fmt.Errorf("adding column %s/%s: %w", t.Name, c.Name, err)
+		}
+	}
+	for _, stmt := range createIndexes {
+		if _, err := pg.Exec(ctx, stmt); err != nil {
+			return fmt.Errorf("table %q stmt %q: %w", t.Name, stmt, err)
 		}
 	}
 	return nil
